@@ -467,7 +467,7 @@ class Check:
             cov["exhaustive"] = bool(self.exhaustive)
         ev = {"property_id": self.prop, "tier": self.tier, "seed": self.seed, "level": self.level, "coverage": cov,
               "assumptions": self.assumptions, "wall_s": round(time.time() - self.t0, 2), "violations": reported}
-        if self.replay_rec is None:
+        if self.replay_rec is None and not os.environ.get("VERIF_NO_EVIDENCE"):  # (set while trying seeded changes, so that a mutant run never replaces the evidence of the real tree)
             os.makedirs(os.path.join(VERIF, "evidence"), exist_ok=True)
             json.dump(ev, open(os.path.join(VERIF, "evidence", self.prop + ".json"), "w"), indent=1, default=str)
         print("%s tier=%s seed=%d obligations=%d/%d evaluations=%d nontrivial=%d violations=%d known=%d wall=%.1fs" % (
